@@ -39,6 +39,15 @@ def brace_text(n, rng):
     return [rng.choice(toks) for _ in range(n)]
 
 
+def byte_bound_holds(name, cfg, kind, f, decider, cut, B):
+    """the run again, allowed as many tests as the bound in the number of reducible bytes B"""
+    tc = strat.testcase_from_fields(kind, f, cut)
+    tc.filename = str(loaders.scratch() / "c09-collapse.txt")
+    bb = (B + 1) * (B + clog2(B) + 2) + 1
+    run = strat.run_real(name, cfg, tc, decider, max_tests=bb + 2, watchdog=10.0)
+    return run.error is None and len(run.verdicts) + 1 <= bb
+
+
 def one(ctx, name, cfg, kind, f, decider, do_model=True, label="", cut=None):
     tc = strat.testcase_from_fields(kind, f, cut)
     n = len(tc)
@@ -60,8 +69,27 @@ def one(ctx, name, cfg, kind, f, decider, do_model=True, label="", cut=None):
     tests = len(run.verdicts) + 1
     if run.error == "test-limit" or tests > bound:
         grew = sum(len(p) for p in run.best[1]) > sum(len(p) for p in f[1])
+        def nred(fl):
+            return sum(1 for r in fl[2] if r)
+        def resplit_ok(fl):
+            """the atoms of a re-loaded collapse candidate are the ones the testcase's OWN delimiter sets give (independent
+            structural rule: cut after a byte of cut-after, before a byte of cut-before)"""
+            if kind != "symbol" or cut is None or set(cut[0]) & set(cut[1]) or fl[0] or fl[3] or not all(fl[2]):
+                return False
+            data_ = b"".join(fl[1])
+            cuts, pos = set(), 0
+            for p_ in fl[1][:-1]:
+                pos += len(p_)
+                cuts.add(pos)
+            return cuts == {q for q in range(1, len(data_)) if data_[q - 1] in cut[1] or data_[q] in cut[0]}
+        grown = [a for a in run.atts if a["tag"] == 3 and a["resp"] == "a" and nred(a["cand"]) > nred(a["best_before"])]
+        regrown = name == "minimize-collapse-brace" and bool(grown) and all(resplit_ok(a["cand"]) for a in grown)
         if name == "replace-arguments-by-globals" and grew:
             ctx.fail("replace-arguments-grows", f"{tests}+ tests > bound {bound} on B={B} bytes (the file grows)", case)
+        elif regrown and byte_bound_holds(name, cfg, kind, f, decider, cut, B):
+            # more atoms after the re-load of a collapsed text than before: the bound in the INITIAL atom count is exceeded,
+            # the same bound in the number of reducible BYTES (no re-split can make more atoms than that) is not
+            ctx.fail("collapse-regrows-atoms", f"{tests} tests > bound {bound} for n={n} atoms: the re-load of the collapsed text has more atoms than the testcase it replaces", case)
         else:
             ctx.fail("too-many-tests", f"{name}: {tests}{'+' if run.error else ''} tests > bound {bound} (n={n}, B={B})", case)
     elif run.error:
@@ -207,6 +235,25 @@ def hill_climb(ctx, rounds):
 def known_finding_cases(ctx):
     res = loaders.real_load("line", b"function f(a){}\nf(function f(x){})\n")
     one(ctx, "replace-arguments-by-globals", dict(), "line", strat.fields(res[1]), lambda k, c: True, False, "known-finding")
+    # brace collapsing with `--cut-after ' '`: 3 atoms, the last one holds 6 brace pairs `xI{\n}`; collapsing turns every
+    # `{\n}` into `{ }`, and the re-load cuts after each of the new spaces
+    cut = (b"", b" ")
+    data = b"a b " + b"".join(b"x%d{\n}" % i for i in range(6))
+    res = loaders.real_load("symbol", data, cut)
+    f = strat.fields(res[1])
+    atoms2 = strat.fields(loaders.real_load("symbol", data.replace(b"{\n}", b"{ }"), cut)[1])[1]
+    suffixes = {b"".join(atoms2[j:]) for j in range(len(atoms2) + 1)}
+    dec = lambda k, c: c == data or c in suffixes
+    one(ctx, "minimize-collapse-brace", dict(), "symbol", f, dec, False, "known-finding", cut=cut)
+    # the same run to its end (the monitor above stops it at the bound), model against code
+    tc = strat.testcase_from_fields("symbol", f, cut)
+    tc.filename = str(loaders.scratch() / "c09-collapse.txt")
+    run = strat.run_real("minimize-collapse-brace", dict(), tc, dec, max_tests=2000, watchdog=10.0)
+    case = dict(strategy="minimize-collapse-brace", cfg={}, splitter="symbol", parts=common.enc_list(f[1]), label="known-finding, full run",
+                tests=len(run.verdicts) + 1)
+    ctx.expect("minimize-collapse-brace", strat.model_line("minimize-collapse-brace", dict(), f, run.verdicts, kind="symbol", cut=cut), run.encode(), case)
+    if len(run.verdicts) + 1 != 49 or run.error:
+        ctx.fail("known-finding-replay-changed", f"the recorded collapse-regrows-atoms run now makes {len(run.verdicts) + 1} tests (49 recorded), error={run.error}", case)
 
 
 def search(ctx):
